@@ -196,6 +196,51 @@ def run(ctx):
                 probs.append("the next 'go infinite' + 'stop' got no bestmove")
         rc_, err_ = u.close()
         return probs, u.log[-12:]
+    # ---- (2c) the search the stop is aimed at was started while the PREVIOUS search was still running or still unwinding:
+    #           go infinite / stop + go infinite back to back / stop;   go infinite / go infinite / stop.  The first search must end with
+    #           its bestmove (the reader stops and joins it), the second one must be stopped by the stop that follows it. ----
+    def overlap_session(shape):
+        u = Uci(rbin)
+        probs = []
+        u.send("position startpos moves e2e4")
+        u.send("go infinite")
+        time.sleep(rng_delay[shape[1]])
+        if shape[0] == "stop+go":
+            u.send("stop")
+        u.send("position startpos moves e2e4 e7e5")
+        u.send("go infinite")
+        s_, t_ = u.wait_for(lambda x: x.startswith("bestmove"), 15)
+        if s_ is None:
+            probs.append("the first search never sent its bestmove")
+        time.sleep(rng_delay[shape[2]])
+        u.send("isready")
+        s_, t_ = u.wait_for(lambda x: x.strip() == "readyok", 10)
+        if s_ is None:
+            probs.append("isready not answered while the second search runs")
+        t0 = time.time()
+        u.send("stop")
+        s_, t_ = u.wait_for(lambda x: x.startswith("bestmove"), 15)
+        if s_ is None:
+            probs.append("the stop after the second 'go infinite' got no bestmove within 15 s (stop lost)")
+        elif t_ - t0 > 5:
+            probs.append("bestmove %.1f s after the stop" % (t_ - t0))
+        nb = u.count(lambda x: x.startswith("bestmove"))
+        if s_ is not None and nb != 2:
+            probs.append("%d bestmove lines for two searches" % nb)
+        rc_, err_ = u.close()
+        return probs, u.log[-14:]
+    rng_delay = [0.0, 0.002, 0.05, 0.2]
+    oshapes = [(a, b, c) for a in ("stop+go", "go") for b in range(4) for c in range(4)] * (1 if q else 6)
+    with concurrent.futures.ThreadPoolExecutor(max_workers=NPROC) as ex:
+        over = list(ex.map(overlap_session, oshapes))
+    for shape, (probs, log_) in zip(oshapes, over):
+        for p in probs:
+            nviol += 1
+            if nviol <= 8:
+                ctx.violation("go infinite, %s while it runs, then stop [delays %s s / %s s]: %s" % ("'stop' and 'go infinite' back to back" if shape[0] == "stop+go" else "a second 'go infinite'",
+                                                                                             rng_delay[shape[1]], rng_delay[shape[2]], p),
+                              {"shape": list(shape), "log": log_}, key="c06:overlap:%s:%s" % (shape[0], p))
+    ctx.notes["overlapping_go_sessions"] = len(oshapes)
     shapes = ["book answer", "search ended by itself", "no go yet", "two stops"] * (2 if q else 10)
     with concurrent.futures.ThreadPoolExecutor(max_workers=NPROC) as ex:
         idle = list(ex.map(idle_stop_session, shapes))
@@ -254,4 +299,4 @@ def run(ctx):
                                 "the two-thread model is sequentially consistent with one shared flag; the C++ memory model, the OS scheduler and real-time promptness "
                                 "are exhibited only by the forced-schedule runs and ThreadSanitizer (partial by nature)",
                                 "ThreadSanitizer reports about the detached thread's teardown after bestmove (not about the stop signalling) are counted, not judged"]
-    ctx.assumptions += ["well-formed sessions: the next command after go is sent only after bestmove, except stop / isready"]
+    ctx.assumptions += ["sessions: after go the next command is stop / isready, or (section 2c) a position + go sent while the search still runs; other commands are sent only after bestmove"]
